@@ -13,7 +13,7 @@ behaviour-preserving edit inside a function (renaming a local, reordering operan
 the table states how many sites of that coarse kind in that function were reviewed; one more than that is a violation that
 lists every undischarged site of the group.
 """
-import json, os
+import json, os, re
 from collections import Counter, defaultdict
 from vplib import expr as E
 from vplib.facts import path_endswith, short_ty
@@ -157,7 +157,8 @@ def collect(fx, entries, skip_fn=None):
             s.path = fx.call_path(seen, bid)
             sites.append(s)
     for s in sites:
-        s.key = "%s|%s" % (s.body.sname, s.coarse)
+        # closures count as part of the function that defines them (closure numbers shift when one is added or removed)
+        s.key = "%s|%s" % (re.sub(r"(::\{closure#\d+\})+$", "", s.body.sname), s.coarse)
     return sites, seen
 
 
@@ -1255,21 +1256,21 @@ def run_reach(fx, rep, entries, table_name, rule, skip_fn=None, kinds=None):
                     leftover[ckey] -= need
                     used.add(ckey)
                     n_tab += len(und)
-                    rep.add(rule, s0.body.sname, s0.coarse, True, "%d site(s), %d by rule, %d reviewed as part of the only caller %s: %s" % (
+                    rep.add(rule, key.split("|")[0], s0.coarse, True, "%d site(s), %d by rule, %d reviewed as part of the only caller %s: %s" % (
                         len(lst), len(lst) - len(und), len(und), ckey.split("|")[0].split("::")[-1], accepted[ckey]["why"]), s0.body.loc(min(s.line for s, _ in lst)))
                     continue
         loc = s0.body.loc(min(s.line for s, _ in lst))
         if not und:
-            rep.add(rule, s0.body.sname, s0.coarse, True, "%d site(s): %s" % (len(lst), "; ".join(sorted({w for _, w in lst}))[:300]), loc)
+            rep.add(rule, key.split("|")[0], s0.coarse, True, "%d site(s): %s" % (len(lst), "; ".join(sorted({w for _, w in lst}))[:300]), loc)
             continue
         if ent:
             used.add(key)
         if len(und) <= allowed:
             n_tab += len(und)
-            rep.add(rule, s0.body.sname, s0.coarse, True, "%d site(s), %d by rule, %d reviewed: %s" % (len(lst), len(lst) - len(und), len(und), ent["why"]), loc)
+            rep.add(rule, key.split("|")[0], s0.coarse, True, "%d site(s), %d by rule, %d reviewed: %s" % (len(lst), len(lst) - len(und), len(und), ent["why"]), loc)
             continue
         lines = ["%s [%s]" % (s.what[:140], s.body.loc(s.line).split("/")[-1]) for s in sorted(und, key=lambda s: s.line)]
-        rep.add(rule, s0.body.sname, "%s: %d site(s) not discharged" % (s0.coarse, len(und) - allowed), False,
+        rep.add(rule, key.split("|")[0], "%s: %d site(s) not discharged" % (s0.coarse, len(und) - allowed), False,
                 "reachable via %s ; undischarged: %s%s" % (" -> ".join(p.split("::")[-1] for p in s0.path[-5:]), " || ".join(lines)[:900],
                                                          (" ; the reviewed table covers %d of them (%s)" % (allowed, ent["why"])) if ent else ""),
                 s0.body.loc(sorted(und, key=lambda s: s.line)[0].line))
